@@ -212,6 +212,9 @@ def read_file(path: str) -> str:
         raise HERAError('could not open file "{}"'.format(path))
     except UnicodeDecodeError:
         raise HERAError('non-ASCII byte in file "{}"'.format(path))
+    except ValueError:
+        # E.g., a NUL character in the path.
+        raise HERAError('could not open file "{}"'.format(path))
 
 
 def read_file_or_stdin(path: str, settings) -> str:
